@@ -11,6 +11,12 @@ def run_rust_tests(pkg, injections, filter_name, timeout=1800, no_args=False, ca
     """injections: [(relative source file, rust code appended)]. -> {test name: 'ok'|'FAILED'}, raw output"""
     with kani.FixedScratch("replay") as fs:
         for rel, code in injections:
+            if rel == "@patch":
+                # a unified diff (test-only code spanning several files) applied to the scratch copy
+                rc_p, out_p, err_p, _s = run(["patch", "-p1", "--no-backup-if-mismatch", "-i", code], cwd=fs.repo, timeout=120)
+                if rc_p != 0:
+                    return None, "test patch %s does not apply to the current tree: %s" % (code, (out_p + err_p)[-400:])
+                continue
             p = os.path.join(fs.repo, rel)
             if not os.path.exists(p):
                 if "/tests/" in rel and os.path.isdir(os.path.dirname(os.path.dirname(p))):
